@@ -26,6 +26,8 @@ pub struct Config {
     today_start: bool,
     no_leaf_dirs: bool,
     follow: Follow,
+    /// The syntax selected by the most recent -regextype.
+    regex_type: matchers::RegexType,
     new_paths: Option<Vec<String>>,
     files0_argument: Option<String>,
 }
@@ -46,6 +48,7 @@ impl Default for Config {
             // a compatibility item for GNU findutils.
             no_leaf_dirs: false,
             follow: Follow::Never,
+            regex_type: matchers::RegexType::default(),
             new_paths: None, // This option exclusively for -files0-from argument.
             files0_argument: None, //This option also is used for file0-from
         }
